@@ -1280,7 +1280,12 @@ class DiameterMessage:
                                        "DiameterMessage subclass object to be "\
                                        "converted into DiameterMessage object")
         
-        return cls(header=msg.header,
+        #: The new message gets a header of its own. The AVPs are appended 
+        #: once more, so the Message Length starts from the bare header.
+        header = deepcopy(msg.header)
+        header.length = DIAMETER_HEADER_LENGTH
+
+        return cls(header=header,
                    avps=msg.avps)
 
 
